@@ -451,7 +451,13 @@ def run_line(state, sx):
         return 'ok (L' + ''.join(' T:%d' % dt2us(as_datetime(t)) for t in res) + ')'
     if op == 'crun':
         from pyg_base._drange import Calendar
-        cal = state.get('cal') or state.setdefault('cal', Calendar(None, t0=D(2000, 1, 1), t1=D(2001, 1, 1)))
+        # a bump that is not a 'kb' string delegates to drange whatever the calendar holds: three calendars (round k3; until then one
+        # holiday-free calendar) - plain, Fri-Sat weekend with holidays, Sunday-only weekend with a dense holiday run - chosen by the start day
+        cals = state.get('cals') or state.setdefault('cals', [
+            Calendar(None, t0=D(2000, 1, 1), t1=D(2001, 1, 1)),
+            Calendar(None, holidays=[D(2000, 1, 3), D(2000, 5, 1), D(2000, 12, 25)], weekend=[4, 5], t0=D(2000, 1, 1), t1=D(2001, 1, 1)),
+            Calendar(None, holidays=[D(2000, 3, 1) + TD(i) for i in range(40)], weekend=6, t0=D(1999, 1, 1), t1=D(2002, 1, 1))])
+        cal = cals[(int(args[0]) // (86400 * 10 ** 6)) % 3]
         res = cal.drange(us2dt(int(args[0])), us2dt(int(args[1])), dec_bump(args[2]))
         return 'ok (L' + ''.join(' T:%d' % dt2us(t) for t in res) + ')'
     if op == 'bump':
